@@ -273,3 +273,89 @@ Proof.
       * intro z. unfold den. simpl. unfold parts at 1; simpl. rewrite FD, S1, inl_nil_iff, Em1, Em2. tauto.
       * unfold wfr, parts; simpl. intros _. exact Wk.
 Qed.
+
+(* ---- _range_union ---- *)
+Lemma join_den : forall ra rb, wfp ra -> wfp rb -> joinable ra rb = true ->
+  (forall z, inp (join ra rb) z <-> inp ra z \/ inp rb z) /\ wfp (join ra rb).
+Proof.
+  intros [al ar] [bl br] Wa Wb J. apply wfp_iff in Wa. apply wfp_iff in Wb. simpl in Wa, Wb.
+  destruct Wa as [Wa1 [Wa2 Wa3]]. destruct Wb as [Wb1 [Wb2 Wb3]].
+  unfold joinable, join in *. destruct (overlap (al, ar) (bl, br)) eqn:O.
+  - apply overlap_true in O. simpl in O. destruct O as [O1 O2]. cbn [fst snd].
+    destruct (edge_compare al bl <? 0) eqn:Ell; [apply ec_ltb in Ell | apply ec_ltb_f in Ell];
+    (destruct (edge_compare ar br >? 0) eqn:Err; [apply ec_gtb in Err | apply ec_gtb_f in Err]);
+    left_edge al Wa1; right_edge ar Wa2; left_edge bl Wb1; right_edge br Wb2; simpl in *; try lia;
+    (split; [intro zz; unfold inp; simpl; lia | apply wfp_iff; simpl; (split; [congruence | split; [congruence | lia]])]).
+  - simpl in J. cbn [fst snd] in *. destruct ar; try discriminate. destruct bl; try discriminate.
+    assert (z0 - z = 1) by lia. clear J.
+    assert (O' : ~ (~ elt br al /\ ~ elt (EV z) (EV z0))).
+    { intro K. apply (overlap_true (al, EV z) (EV z0, br)) in K. congruence. }
+    left_edge al Wa1; right_edge br Wb2; simpl in *;
+    (split; [intro zz; unfold inp; simpl; lia | apply wfp_iff; simpl; (split; [congruence | split; [congruence | lia]])]).
+Qed.
+
+Lemma union_loop_den : forall rest ra, wfp ra -> Forall wfp rest ->
+  (forall z, inl (union_loop ra rest) z <-> inp ra z \/ inl rest z) /\ Forall wfp (union_loop ra rest).
+Proof.
+  induction rest as [|rb tl IH]; intros ra Wa Wr; simpl.
+  - split; [intro z; rewrite inl_one, inl_nil_iff; tauto | auto].
+  - inversion Wr as [|? ? Wb Wtl]; subst.
+    destruct (joinable ra rb) eqn:J.
+    + destruct (join_den _ _ Wa Wb J) as [J1 J2].
+      destruct (IH _ J2 Wtl) as [I1 I2]. split; auto.
+      intro z. rewrite I1, J1, inl_cons. tauto.
+    + destruct (IH _ Wb Wtl) as [I1 I2]. split; auto.
+      intro z. rewrite !inl_cons, I1. tauto.
+Qed.
+
+Theorem union_denotes : forall els, Forall wfp els ->
+  (forall z, inl (range_union els) z <-> inl els z) /\ Forall wfp (range_union els).
+Proof.
+  intros els W. unfold range_union.
+  pose proof (inl_sort range_compare els) as S.
+  pose proof (Forall_sort _ range_compare _ W) as WS.
+  destruct (sort_by range_compare els) as [|a tl].
+  - split; [exact S | auto].
+  - inversion WS; subst. destruct (union_loop_den tl a) as [U1 U2]; auto.
+    split; auto. intro z. rewrite U1, <- S, inl_cons. tauto.
+Qed.
+
+(* ---- _range_canonicalize ---- *)
+Lemma range_union_nonnil : forall els, els <> [] -> range_union els <> [].
+Proof.
+  intros els H. unfold range_union.
+  assert (sort_by range_compare els <> []).
+  { destruct els as [|a l]; [congruence|]. simpl.
+    destruct (sort_by range_compare l); simpl; [congruence|]. destruct (range_compare a i <=? 0); congruence. }
+  destruct (sort_by range_compare els) as [|a tl]; [congruence|].
+  clear. revert a. induction tl; intros; simpl; [congruence|]. destruct (joinable a0 a); [apply IHtl | congruence].
+Qed.
+
+Theorem canonicalize_denotes : forall r, wfr r ->
+  (forall z, den (range_canonicalize r) z <-> den r z) /\ wfr (range_canonicalize r).
+Proof.
+  intros r W. unfold range_canonicalize. destruct (r_elems r) as [|e els] eqn:E.
+  - destruct (edge_compare (r_left r) (r_right r) >? 0) eqn:C; [|tauto].
+    (* reversed single range: cannot be well formed unless flagged empty *)
+    unfold wfr, den in *. simpl. unfold parts in *. rewrite E in *. simpl.
+    destruct (r_empty r); [split; [intro z; split; intros [? _]; discriminate | intro; discriminate]|].
+    exfalso. specialize (W eq_refl). inversion W as [|? ? Wp _]; subst. apply wfp_iff in Wp. simpl in Wp.
+    apply ec_gtb in C. tauto.
+  - assert (NE : e :: els <> []) by congruence.
+    pose proof (range_union_nonnil _ NE) as UN.
+    unfold wfr, den in *.
+    assert (P : parts r = e :: els) by (unfold parts; rewrite E; reflexivity).
+    rewrite P in *.
+    destruct (r_empty r) eqn:Er.
+    + split.
+      * intro z. destruct (range_union (e :: els)) as [|p [|q t]]; simpl; rewrite Er; split; intros [? _]; discriminate.
+      * destruct (range_union (e :: els)) as [|p [|q t]]; simpl; rewrite Er; intro; discriminate.
+    + specialize (W eq_refl). destruct (union_denotes _ W) as [U1 U2].
+      destruct (range_union (e :: els)) as [|p [|q t]] eqn:Eu; [congruence | |].
+      * simpl. rewrite Er. unfold parts; simpl. split.
+        -- intro z. rewrite <- U1, !inl_one. destruct p; simpl; tauto.
+        -- intros _. constructor; auto. inversion U2; subst. destruct p; simpl; auto.
+      * cbn [r_empty set_bounds]. rewrite Er. unfold parts; cbn [r_elems set_bounds]. split.
+        -- intro z. rewrite <- U1. tauto.
+        -- intros _. exact U2.
+Qed.
